@@ -4,6 +4,7 @@ import (
 	"bufio"
 	"fmt"
 	"io"
+	"os"
 	"os/exec"
 	"regexp"
 	"strconv"
@@ -23,21 +24,22 @@ func (v Verdict) String() string { return [...]string{"unsat", "sat", "unknown"}
 
 // Solver is one long-lived SMT solver process driven over stdin/stdout.
 type Solver struct {
-	Name    string
-	cmd     *exec.Cmd
-	in      io.WriteCloser
-	out     *bufio.Reader
-	p       *Printer
-	c       *Ctx
-	Queries int
-	Time    time.Duration
-	Errors  []string
-	Log     io.Writer
-	timeout time.Duration
-	argv    []string
-	dead    bool
-	nmark   int
-	stack   []*Term // assertions currently on the solver's push stack (one level each)
+	Name      string
+	cmd       *exec.Cmd
+	in        io.WriteCloser
+	out       *bufio.Reader
+	p         *Printer
+	c         *Ctx
+	Queries   int
+	Portfolio int // obligations proved by the second solver of the portfolio (cvc5)
+	Time      time.Duration
+	Errors    []string
+	Log       io.Writer
+	timeout   time.Duration
+	argv      []string
+	dead      bool
+	nmark     int
+	stack     []*Term // assertions currently on the solver's push stack (one level each)
 }
 
 func NewSolver(c *Ctx, timeout time.Duration, argv ...string) (*Solver, error) {
@@ -383,6 +385,9 @@ func (s *Solver) CheckFresh(assertions []*Term, wantModel bool, timeout time.Dur
 			sb.WriteString("))\n")
 		}
 	}
+	if d := os.Getenv("VERIF_FRESHDUMP"); d != "" {
+		os.WriteFile(fmt.Sprintf("%s/fresh_%d.smt2", d, s.Queries), []byte(sb.String()), 0o644)
+	}
 	argv := []string{"z3", fmt.Sprintf("-T:%d", int(timeout.Seconds())+1), "-in"}
 	if !strings.Contains(s.argv[0], "z3") {
 		argv = append([]string{}, s.argv...)
@@ -394,14 +399,64 @@ func (s *Solver) CheckFresh(assertions []*Term, wantModel bool, timeout time.Dur
 	done := make(chan struct{})
 	var out []byte
 	go func() { out, _ = cmd.CombinedOutput(); close(done) }()
-	select {
-	case <-done:
-	case <-time.After(timeout + 10*time.Second):
+	// portfolio: a second solver (cvc5, a different bit-vector rewriter/bit-blaster) works on the same
+	// query; only its UNSAT answer is used (proof of the obligation) - a model always comes from z3
+	var cmd2 *exec.Cmd
+	unsat2 := make(chan bool, 1)
+	if path, err := exec.LookPath("cvc5"); err == nil && os.Getenv("VERIF_NO_PORTFOLIO") == "" && strings.Contains(argv[0], "z3") {
+		q := sb.String()
+		if i := strings.Index(q, "(get-value"); i >= 0 {
+			q = q[:i]
+		}
+		cmd2 = exec.Command(path, "--lang=smt2", fmt.Sprintf("--tlimit=%d", (int(timeout.Seconds())+1)*1000))
+		cmd2.Stdin = strings.NewReader("(set-logic ALL)\n" + strings.Replace(q, "(set-option :global-declarations true)\n", "", 1))
+		go func() {
+			o, _ := cmd2.Output()
+			first := strings.TrimSpace(strings.SplitN(string(o), "\n", 2)[0])
+			unsat2 <- first == "unsat" && !strings.Contains(string(o), "(error")
+		}()
+	}
+	killAll := func() {
 		if cmd.Process != nil {
 			cmd.Process.Kill()
 		}
-		<-done
-		return Unknown, nil, "fresh solver watchdog timeout"
+		if cmd2 != nil && cmd2.Process != nil {
+			cmd2.Process.Kill()
+		}
+	}
+	watchdog := time.After(timeout + 10*time.Second)
+wait:
+	for {
+		select {
+		case <-done:
+			if cmd2 != nil && cmd2.Process != nil {
+				// z3 answered; if it is undecided give cvc5 the rest of the budget
+				if t := string(out); !strings.Contains(t, "unsat") && !strings.HasPrefix(strings.TrimSpace(t), "sat") {
+					select {
+					case u := <-unsat2:
+						if u {
+							s.Portfolio++
+							return Unsat, nil, ""
+						}
+					case <-watchdog:
+					}
+				}
+				cmd2.Process.Kill()
+			}
+			break wait
+		case u := <-unsat2:
+			if u {
+				killAll()
+				<-done
+				s.Portfolio++
+				return Unsat, nil, ""
+			}
+			unsat2 = nil // cvc5 finished without a proof: wait for z3 alone
+		case <-watchdog:
+			killAll()
+			<-done
+			return Unknown, nil, "fresh solver watchdog timeout"
+		}
 	}
 	txt := string(out)
 	lines := strings.Split(txt, "\n")
